@@ -4,8 +4,10 @@ package main
 
 import (
 	"fmt"
+	"go/constant"
 	"go/token"
 	"go/types"
+	"os"
 	"sort"
 	"strings"
 
@@ -55,7 +57,46 @@ func appendClosure(fn *ssa.Function) (*ssa.FreeVar, bool) {
 	return cell, n == 1
 }
 
+// checkNewChordBase: op.NewChord keeps a given bass interval whatever it is and falls back to the default only when there
+// is none: folded on every interval 1..15 of every quality as the base.
+func (c *Ctx) checkNewChordBase() {
+	fn := c.fn("op", "NewChord")
+	if fn == nil || len(fn.Params) != 3 {
+		return
+	}
+	dnames := c.enumConsts("note", "DegreeName")
+	problem, n := "", 0
+	deg := fval{fields: map[string]fval{"Value": {k: constant.MakeInt64(5)}, "Name": {k: constant.MakeInt64(dnames["PerfectDegree"])}}}
+	for _, dn := range sortedKeys(dnames) {
+		for v := int64(1); v <= 15; v++ {
+			base := &StructV{Fields: map[string]Val{"Value": &CVal{V: constant.MakeInt64(v)}, "Name": &CVal{V: constant.MakeInt64(dnames[dn])}}}
+			r, err := c.newFolder().foldCall(fn, []fval{deg, top, {cvptr: base}})
+			if err != nil || r.fields == nil || r.fields["Base"].fields == nil {
+				if os.Getenv("CRDCHECK_DEBUG") != "" {
+					fmt.Fprintf(os.Stderr, "checkNewChordBase: %v %s\n", err, r.String())
+				}
+				continue
+			}
+			b := r.fields["Base"].fields
+			if b["Value"].k == nil || b["Name"].k == nil {
+				continue
+			}
+			n++
+			gv, _ := constant.Int64Val(b["Value"].k)
+			gn, _ := constant.Int64Val(b["Name"].k)
+			if gv != v || gn != dnames[dn] {
+				problem = fmt.Sprintf("a chord made with the base %s %d carries the base (%d, %d) instead", dn, v, gn, gv)
+			}
+		}
+	}
+	if n > 0 {
+		c.site(1)
+		c.check(problem == "", "op.NewChord|base", c.pos(fn.Pos()), fname(fn), fmt.Sprintf("a given base is kept as it is (%d intervals folded)", n), "op.NewChord: "+problem+": the bass of such a slash chord sounds on another pitch")
+	}
+}
+
 func ruleApply(c *Ctx) {
+	c.checkNewChordBase()
 	fn := c.fn("play", "Key.Apply")
 	if fn == nil {
 		c.missing("play.Key.Apply")
@@ -91,6 +132,7 @@ func ruleApply(c *Ctx) {
 			}
 		}
 	}
+	var midC int64 // the part of the constant that is middle C's note number, when it was folded into it
 	wantCommon := func(af *affForm) (ok bool, rest map[string]int64, why string) {
 		rest = map[string]int64{}
 		var a, k, d int
@@ -106,6 +148,12 @@ func ruleApply(c *Ctx) {
 			default:
 				rest[t] = co
 			}
+		}
+		// middle C: as the term MiddleC.MIDINoteNumber() with coefficient 1, or - when that folds - as 60 in the constant
+		if a == 0 && af.k >= 48 {
+			a, midC = 1, 60
+		} else {
+			midC = 0
 		}
 		switch {
 		case a != 1:
@@ -144,7 +192,7 @@ func ruleApply(c *Ctx) {
 			// the bass
 			nBass++
 			c.site(1)
-			good := ok && af.k == -12 && len(rest) == 1
+			good := ok && af.k-midC == -12 && len(rest) == 1
 			for t, co := range rest {
 				if !(strings.HasPrefix(t, "note.Degree.Semitone(") && strings.Contains(t, "p1.Base") && strings.HasSuffix(t, "#0") && co == 1) {
 					good = false
@@ -158,7 +206,7 @@ func ruleApply(c *Ctx) {
 		}
 		nTone++
 		c.site(1)
-		good := ok && af.k == 0 && len(rest) == 1
+		good := ok && af.k-midC == 0 && len(rest) == 1
 		for t, co := range rest {
 			if !(strings.HasPrefix(t, "chord.Attribute.Semitone(") && strings.HasSuffix(t, "#0") && co == 1) {
 				good = false
@@ -224,6 +272,56 @@ func ruleApply(c *Ctx) {
 		}
 		c.check(c.missReturnsError(call, 1, nil), name+"|guard|"+n, c.pos(call.Pos()), name, "failure of "+n+" is an error", "the ok result of "+n+" is not checked: an invalid interval or unknown chord is played as 0 semitones")
 	}
+	// ... and nothing else is refused: an error is returned only where one of those lookups failed (a range check on the
+	// root's or a tone's distance refuses chords that have a sound: the seventh degree of every major key, say)
+	c.site(1)
+	refusal := ""
+	for _, r := range returnsOf(fn) {
+		if len(r.Results) != 2 || isNilConst(r.Results[1]) {
+			continue
+		}
+		failed := false
+		for _, pc := range pathConds(r.Block()) {
+			if ex, ok := pc.cond.(*ssa.Extract); ok {
+				if _, isCall := ex.Tuple.(*ssa.Call); isCall && !pc.side {
+					failed = true
+				}
+				continue
+			}
+			if u, ok := pc.cond.(*ssa.UnOp); ok && u.Op == token.NOT {
+				if ex, ok := u.X.(*ssa.Extract); ok {
+					if _, isCall := ex.Tuple.(*ssa.Call); isCall && pc.side {
+						failed = true
+					}
+					continue
+				}
+			}
+			if b, ok := pc.cond.(*ssa.BinOp); ok {
+				if cb := condBlock(fn, pc.cond); cb != nil && isLoopHeader(cb) {
+					continue // the test of the loop over the attributes
+				}
+				if isNilConst(b.X) || isNilConst(b.Y) {
+					continue
+				}
+				refusal = "an error return (" + c.pos(r.Pos()) + ") stands under the comparison `" + b.String() + "`"
+			}
+		}
+		if !failed && refusal == "" {
+			// an error handed on from a callee is a failed step too
+			if _, isConstErr := r.Results[1].(*ssa.Call); isConstErr {
+				ok := false
+				for _, pc := range pathConds(r.Block()) {
+					if b, isB := pc.cond.(*ssa.BinOp); isB && (isNilConst(b.X) || isNilConst(b.Y)) {
+						ok = true
+					}
+				}
+				if !ok {
+					refusal = "an error return (" + c.pos(r.Pos()) + ") is reached without a failed lookup"
+				}
+			}
+		}
+	}
+	c.check(refusal == "", name+"|refusals", c.pos(fn.Pos()), name, "a chord is refused only when one of its intervals has no size or its symbol is unknown", name+": "+refusal+": chords that have a sound are refused")
 }
 
 // ---------------------------------------------------------------------------
@@ -255,6 +353,7 @@ func rulePlayLoop(c *Ctx) {
 		c.missing("play.MIDIWriter.Write")
 		return
 	}
+	c.checkSoleWriterImpl()
 	c.site(1)
 	name := fname(fn)
 	// the calls may sit in helpers extracted from Write: look at its whole region (the named steps themselves are not looked into)
@@ -462,15 +561,18 @@ func rulePlayLoop(c *Ctx) {
 		// the op.Instance copies every setting of the input instance
 		c.site(1)
 		copied := map[string]bool{}
-		allInstrs(nf, func(in ssa.Instruction) {
-			if st, ok := in.(*ssa.Store); ok {
-				if n, _, ok := fieldName(st.Addr); ok {
-					if ln, _, ok := loadedField(st.Val); ok && ln == n {
-						copied[n] = true
+		// (the copying may sit in a constructor helper: the whole region)
+		for _, rf := range c.regionFuncChainsList(nf) {
+			allInstrs(rf, func(in ssa.Instruction) {
+				if st, ok := in.(*ssa.Store); ok {
+					if n, _, ok := fieldName(st.Addr); ok {
+						if ln, _, ok := loadedField(st.Val); ok && ln == n {
+							copied[n] = true
+						}
 					}
 				}
-			}
-		})
+			})
+		}
 		var missing []string
 		for _, f := range []string{"Values", "BPM", "Velocity", "Meter", "Key", "Meta"} {
 			if !copied[f] {
@@ -510,12 +612,43 @@ func rulePlayLoop(c *Ctx) {
 				}
 			}
 		})
+		var builtInit ssa.Value
+		if built == nil {
+			// built by a constructor helper: the local that receives the helper's result
+			allInstrs(nf, func(in ssa.Instruction) {
+				st, ok := in.(*ssa.Store)
+				if !ok {
+					return
+				}
+				al, isAl := st.Addr.(*ssa.Alloc)
+				call, isCall := st.Val.(*ssa.Call)
+				if !isAl || !isCall || typeName(al.Type()) != "op.Instance" {
+					return
+				}
+				if h := staticCallee(&call.Call); h != nil && c.isHelper(nf, h) {
+					makes := false
+					allInstrs(h, func(in2 ssa.Instruction) {
+						if s2, ok := in2.(*ssa.Store); ok {
+							if n, _, ok := fieldName(s2.Addr); ok && n == "Values" {
+								makes = true
+							}
+						}
+					})
+					if makes {
+						built, builtInit = al, call
+					}
+				}
+			})
+		}
 		var isBuilt func(v ssa.Value, seen map[ssa.Value]bool) (ok, viaOverride bool)
 		isBuilt = func(v ssa.Value, seen map[ssa.Value]bool) (bool, bool) {
 			if seen[v] {
 				return true, false
 			}
 			seen[v] = true
+			if builtInit != nil && v == builtInit {
+				return true, false
+			}
 			switch x := v.(type) {
 			case *ssa.Alloc:
 				return x == built, false
@@ -693,13 +826,55 @@ func copiesFromL(tr *tracer, l lval, src *rcall) bool {
 	if isSrc(l) {
 		return true
 	}
-	mk, ok := l.v.(*ssa.MakeSlice)
-	if !ok {
-		return false
-	}
 	isLenSrc := func(v ssa.Value) bool {
 		lc, ok := v.(*ssa.Call)
 		return ok && calleeName(&lc.Call) == "builtin.len" && isSrc(l.with(lc.Call.Args[0]))
+	}
+	// grown by append, one converted element of the source per round of a loop over the whole source
+	if phi, ok := l.v.(*ssa.Phi); ok && isLoopHeader(phi.Block()) {
+		loop := naturalLoop(phi.Block())
+		good := loop != nil
+		for i, e := range phi.Edges {
+			if loop == nil {
+				break
+			}
+			if !loop[phi.Block().Preds[i]] {
+				// starts empty
+				if mk, ok := e.(*ssa.MakeSlice); ok {
+					if k, isK := constInt(mk.Len); !isK || k != 0 {
+						good = false
+					}
+				} else if !isNilConst(e) {
+					good = false
+				}
+				continue
+			}
+			call, ok := e.(*ssa.Call)
+			if !ok {
+				good = false
+				continue
+			}
+			b, isB := call.Call.Value.(*ssa.Builtin)
+			if !isB || b.Name() != "append" || call.Call.Args[0] != ssa.Value(phi) {
+				good = false
+				continue
+			}
+			elems := variadicValues(call.Call.Args[1])
+			if len(elems) != 1 {
+				good = false
+				continue
+			}
+			from := indexOfLoad(stripConv(elems[0]))
+			lp := enclosingRangeLoop(call.Block())
+			if from == nil || !isSrc(l.with(from.X)) || lp == nil || lp.index != from.Index || !isLenSrc(lp.bound) {
+				good = false
+			}
+		}
+		return good
+	}
+	mk, ok := l.v.(*ssa.MakeSlice)
+	if !ok {
+		return false
 	}
 	if !isLenSrc(mk.Len) {
 		return false
@@ -959,6 +1134,7 @@ func ruleOpt(c *Ctx) {
 		inst, _ := p.Types.Scope().Lookup("Instance").(*types.TypeName)
 		st := inst.Type().Underlying().(*types.Struct)
 		updates := map[string]string{} // instance field -> cell field
+		bypassed := map[string]string{}
 		// the five blocks may be folded into one (generic) helper: look at the region and resolve cell, value and guard upwards
 		tr := c.plainTracer()
 		for _, rc := range c.regionCalls(up, nil) {
@@ -1002,6 +1178,39 @@ func ruleOpt(c *Ctx) {
 					extra = true
 				}
 			}
+			// ... and no way past the update once the setting is there: at every level of the call chain a return reached
+			// without the update (or the call leading to it) leaves through `the setting is absent` only
+			if guarded && !extra {
+				li := rc.li()
+				for k := 0; k <= len(rc.chain); k++ {
+					at := li.at(k)
+					chainK := rc.chain[:k]
+					f := at.Parent()
+					if b := bypassReturn(f, at.Block(), func(iff *ssa.If) int {
+						b, ok := iff.Cond.(*ssa.BinOp)
+						if !ok || (b.Op != token.NEQ && b.Op != token.EQL) {
+							return -1
+						}
+						x, y := tr.trace(lval{b.X, f, chainK}), tr.trace(lval{b.Y, f, chainK})
+						if isNilConst(x.v) {
+							x, y = y, x
+						}
+						if !isNilConst(y.v) {
+							return -1
+						}
+						if n, _, ok := loadedField(x.v); !ok || n != fld || len(x.chain) != 0 {
+							return -1
+						}
+						if b.Op == token.NEQ {
+							return 1
+						}
+						return 0
+					}); b != nil {
+						extra = true
+						bypassed[fld] = "the end of " + fname(f)
+					}
+				}
+			}
 			if guarded && !extra {
 				updates[fld] = cell
 			}
@@ -1017,6 +1226,8 @@ func ruleOpt(c *Ctx) {
 			cell, ok := updates[f.Name()]
 			want := wantCell[f.Name()]
 			switch {
+			case !ok && bypassed[f.Name()] != "":
+				c.bad(key, c.pos(up.Pos()), fname(up), fmt.Sprintf("setting %s of an instance can be passed by although it is there (a way to %s avoids the Update): some changes of the setting are silently ignored when playing", f.Name(), bypassed[f.Name()]))
 			case !ok:
 				c.bad(key, c.pos(up.Pos()), fname(up), fmt.Sprintf("setting %s of an instance is never stored (no `if x := instance.%s; x != nil { cell.Update(*x) }`): the setting is silently ignored when playing", f.Name(), f.Name()))
 			case want != "" && cell != want:
@@ -1186,10 +1397,21 @@ func ruleOpt(c *Ctx) {
 				keyVal[k] = v.ExactString()
 			}
 		}
+		tbl := c.textEventTable(mc)
 		for _, meth := range []string{"Text", "Lyric", "Marker"} {
 			c.site(1)
 			ci := wcall(mc, meth)
 			good := false
+			if ci == nil && tbl != nil {
+				// the three events written by one loop over a local table of {metadata key, bound writer method}
+				good = tbl.rows[meth] == keyVal[wantKey[meth]] && keyVal[wantKey[meth]] != ""
+				c.check(good, fname(ww)+"|meta|"+meth, c.pos(mc.Pos()), fname(ww), meth+" <- meta["+keyVal[wantKey[meth]]+"] (row of the local event table), text passed unmodified", fmt.Sprintf("the %s event is not fed with the text stored under %s", meth, keyVal[wantKey[meth]]))
+				if good {
+					c.site(1)
+					c.check(tbl.guard == "", fname(ww)+"|meta|"+meth+"|guard", c.pos(tbl.dyn.Pos()), fname(ww), meth+" is written whenever its text is not empty (every row of the table is visited)", fmt.Sprintf("%s: the %s event: %s (e.g. it is skipped when the instance also carries another kind of text)", fname(ww), meth, tbl.guard))
+				}
+				continue
+			}
 			if ci != nil {
 				if get, ok := ci.Common().Args[0].(*ssa.Call); ok && calleeName(&get.Call) == "op.Meta.Get" {
 					if s, ok := get.Call.Args[1].(*ssa.Const); ok && s.Value != nil && s.Value.ExactString() == keyVal[wantKey[meth]] {
@@ -1352,6 +1574,15 @@ func ruleExtends(c *Ctx) {
 		problem = "the chord's own attributes are not appended from m.attributes"
 	case !inLoop(ownAppend.Block()) || !c.loopCoversSlice(ownAppend.Block()):
 		problem = "the chord's own attributes are not all visited"
+	case func() bool {
+		l := enclosingRangeLoop(ownAppend.Block())
+		if l == nil {
+			return false
+		}
+		mn, mx := pathsSiteCount(l, map[*ssa.BasicBlock]int{ownAppend.Block(): 1})
+		return mn != 1 || mx != 1
+	}():
+		problem = "an own attribute is appended under a condition (some round of the loop appends nothing): notes the chord states are dropped"
 	case rec == nil:
 		problem = "no recursive lookup of the parent chord: `extends` is not inherited (or only one level deep)"
 	default:
@@ -1438,6 +1669,7 @@ func ruleBuilder(c *Ctx) {
 		c.site(1)
 		name := fname(fn)
 		keys := map[string]bool{}
+		wrongValue := ""
 		// the indexing may sit in helpers of Build (attributeIndex / chordIndex): look at the whole region
 		regionFns := []*ssa.Function{fn}
 		seenFn := map[*ssa.Function]bool{fn: true}
@@ -1484,17 +1716,36 @@ func ruleBuilder(c *Ctx) {
 						}
 					}
 				}
+				// what is stored under a key is the chord the key was taken from, for every chord of the list
+				vd := ac.describe(mu.Value)
 				for _, d := range ds {
+					owner := ""
 					switch {
 					case strings.HasSuffix(d, ".Meta.Display"):
 						keys["display"] = true
+						owner = strings.TrimSuffix(d, ".Meta.Display")
 					case strings.HasSuffix(d, ".Name"):
 						keys["name"] = true
+						owner = strings.TrimSuffix(d, ".Name")
 					}
+					if owner != "" && len(ds) == 1 && vd != owner {
+						wrongValue = fmt.Sprintf("under %s the table stores %s, not the chord itself", d, vd)
+					}
+				}
+				for _, pc := range pathConds(mu.Block()) {
+					if cmp, ok := pc.cond.(*ssa.BinOp); ok && cmp.Op == token.LSS {
+						continue // the range loop's own test
+					}
+					if ex, ok := pc.cond.(*ssa.Extract); ok {
+						if _, isNext := ex.Tuple.(*ssa.Next); isNext {
+							continue
+						}
+					}
+					wrongValue = "a chord is registered under its name / display only under a further condition (`" + pc.cond.String() + "`)"
 				}
 			})
 		}
-		c.check(keys["name"] && keys["display"], name, c.pos(fn.Pos()), name, "every chord stored under its name and its display", name+": chords are no longer indexed by both name and display symbol (one of the two spellings stops working)")
+		c.check(keys["name"] && keys["display"] && wrongValue == "", name, c.pos(fn.Pos()), name, "every chord stored under its name and its display", name+": chords are no longer indexed by both name and display symbol (one of the two spellings stops working) "+wrongValue)
 		// result goes through NewMap (validation)
 		nNew := len(findRegion(region, func(ci ssa.CallInstruction) bool { return calleeName(ci.Common()) == "chord.NewMap" }))
 		c.check(nNew == 1, name+"|NewMap", c.pos(fn.Pos()), name, "built through NewMap (validated)", "Builder.Build no longer goes through NewMap: references are not validated")
@@ -1540,6 +1791,23 @@ func ruleBuilder(c *Ctx) {
 			}
 		}
 	}
+	// ... and on every way to a successful end: each of the two file loops is reached whatever the other list holds (an
+	// early return for `no --chord files` above the --attr loop skips the user's attributes)
+	if problem == "" {
+		for _, o := range opens {
+			li := o.li()
+			for k := 0; k <= len(o.chain); k++ {
+				at := li.at(k)
+				must := at.Block()
+				if l := innermostLoopHeader(must); l != nil {
+					must = l
+				}
+				if b := bypassReturn(at.Parent(), must, errEdgeCut); b != nil {
+					problem = "a successful return (" + c.pos(b.Instrs[len(b.Instrs)-1].Pos()) + ") is reached without the loop over the files of one of the two flags: those files are silently not loaded"
+				}
+			}
+		}
+	}
 	c.check(problem == "", name, c.pos(nb.Pos()), name, "built-ins first, then --attr and --chord files, errors returned", name+": "+problem)
 	// every entry of every file reaches the builder: what is handed to Builder.Chord / Builder.Attribute is an element of
 	// what a file (or the built-in table) gave in this very round, or of a list that every round appends to - not of a
@@ -1579,4 +1847,328 @@ func ruleBuilder(c *Ctx) {
 			c.check(lost == "", name+"|"+adder+"|every-file", c.pos(rc.call.Pos()), name, "entries of every file reach the builder", name+": "+lost)
 		}
 	}
+}
+
+// eventTable: the text events of an instance written by one loop over a local table whose rows pair a metadata key with
+// a bound method of the writer: `for _, e := range []struct{k string; w func(string)}{{key, w.Text}, ...} { if t :=
+// v.Get(e.k); t != "" { e.w(t) } }`.
+type eventTable struct {
+	rows  map[string]string // writer method -> exact constant of the metadata key
+	dyn   *ssa.Call
+	guard string // what is wrong with the conditions in front of the write ("" = only `own text not empty`)
+}
+
+func (c *Ctx) textEventTable(mc *ssa.Function) *eventTable {
+	if mc == nil {
+		return nil
+	}
+	// field of the current row: *(&E.f) where E holds *(&S[i]), or *(&S[i].f)
+	rowField := func(v ssa.Value) (*ssa.IndexAddr, int, bool) {
+		u, ok := v.(*ssa.UnOp)
+		if !ok || u.Op != token.MUL {
+			return nil, 0, false
+		}
+		fa, ok := u.X.(*ssa.FieldAddr)
+		if !ok {
+			return nil, 0, false
+		}
+		if ia, ok := fa.X.(*ssa.IndexAddr); ok {
+			return ia, fa.Field, true
+		}
+		a, ok := fa.X.(*ssa.Alloc)
+		if !ok {
+			return nil, 0, false
+		}
+		var src ssa.Value
+		for _, r := range *a.Referrers() {
+			if st, ok := r.(*ssa.Store); ok && st.Addr == ssa.Value(a) {
+				if src != nil {
+					return nil, 0, false
+				}
+				src = st.Val
+			}
+		}
+		if lu, ok := src.(*ssa.UnOp); ok && lu.Op == token.MUL {
+			if ia, ok := lu.X.(*ssa.IndexAddr); ok {
+				return ia, fa.Field, true
+			}
+		}
+		return nil, 0, false
+	}
+	var out *eventTable
+	allInstrs(mc, func(in ssa.Instruction) {
+		dyn, ok := in.(*ssa.Call)
+		if !ok || out != nil || dyn.Call.IsInvoke() || len(dyn.Call.Args) != 1 {
+			return
+		}
+		ia, wf, ok := rowField(dyn.Call.Value)
+		if !ok {
+			return
+		}
+		get, ok := dyn.Call.Args[0].(*ssa.Call)
+		if !ok || calleeName(&get.Call) != "op.Meta.Get" || len(get.Call.Args) != 2 {
+			return
+		}
+		ia2, kf, ok := rowField(get.Call.Args[1])
+		if !ok || ia2 != ia || kf == wf {
+			return
+		}
+		// the loop visits every row of the table
+		l := enclosingRangeLoop(dyn.Block())
+		if l == nil || ia.Index != l.index {
+			return
+		}
+		ln, ok := l.bound.(*ssa.Call)
+		if !ok || len(ln.Call.Args) != 1 || ln.Call.Args[0] != ia.X {
+			return
+		}
+		if bi, ok := ln.Call.Value.(*ssa.Builtin); !ok || bi.Name() != "len" {
+			return
+		}
+		sl, ok := ia.X.(*ssa.Slice)
+		if !ok || sl.Low != nil || sl.High != nil {
+			return
+		}
+		arr, ok := sl.X.(*ssa.Alloc)
+		if !ok {
+			return
+		}
+		at, ok := arr.Type().Underlying().(*types.Pointer).Elem().Underlying().(*types.Array)
+		if !ok {
+			return
+		}
+		// the rows
+		rows := map[string]string{}
+		nrows := 0
+		for _, r := range *arr.Referrers() {
+			ra, ok := r.(*ssa.IndexAddr)
+			if !ok {
+				if r != ssa.Instruction(sl) {
+					return // the table is used in another way
+				}
+				continue
+			}
+			if _, isK := constInt(ra.Index); !isK {
+				return
+			}
+			// fields of the row: stored directly or through a composite-literal local
+			var fieldsOf ssa.Value = ra
+			for _, rr := range *ra.Referrers() {
+				if st, ok := rr.(*ssa.Store); ok && st.Addr == ssa.Value(ra) {
+					if lu, ok := st.Val.(*ssa.UnOp); ok && lu.Op == token.MUL {
+						if la, ok := lu.X.(*ssa.Alloc); ok {
+							fieldsOf = la
+						}
+					}
+				}
+			}
+			key, meth := "", ""
+			for _, rr := range *fieldsOf.Referrers() {
+				fa, ok := rr.(*ssa.FieldAddr)
+				if !ok {
+					continue
+				}
+				for _, r3 := range *fa.Referrers() {
+					st, ok := r3.(*ssa.Store)
+					if !ok || st.Addr != ssa.Value(fa) {
+						continue
+					}
+					switch fa.Field {
+					case kf:
+						if k, ok := st.Val.(*ssa.Const); ok && k.Value != nil {
+							if key != "" {
+								return
+							}
+							key = k.Value.ExactString()
+						}
+					case wf:
+						if mcl, ok := st.Val.(*ssa.MakeClosure); ok && len(mcl.Bindings) == 1 {
+							f := mcl.Fn.(*ssa.Function)
+							if strings.HasSuffix(f.Name(), "$bound") && typeName(mcl.Bindings[0].Type()) == "midix.Writer" {
+								if meth != "" {
+									return
+								}
+								meth = strings.TrimSuffix(f.Name(), "$bound")
+							}
+						}
+					}
+				}
+			}
+			if key == "" || meth == "" {
+				return
+			}
+			if _, dup := rows[meth]; dup {
+				return
+			}
+			rows[meth] = key
+			nrows++
+		}
+		if int64(nrows) != at.Len() {
+			return
+		}
+		t := &eventTable{rows: rows, dyn: dyn}
+		// conditions in front of the write: the loop's own test and `the text is not empty`
+		ownEmpty := func(iff *ssa.If) int {
+			cmp, ok := iff.Cond.(*ssa.BinOp)
+			if !ok || (cmp.Op != token.NEQ && cmp.Op != token.EQL) {
+				return -1
+			}
+			x, y := cmp.X, cmp.Y
+			if _, isK := x.(*ssa.Const); isK {
+				x, y = y, x
+			}
+			if k, isK := y.(*ssa.Const); !isK || k.Value == nil || k.Value.ExactString() != `""` || x != ssa.Value(get) {
+				return -1
+			}
+			if cmp.Op == token.NEQ {
+				return 1
+			}
+			return 0
+		}
+		for _, pc := range pathConds(dyn.Block()) {
+			if !l.blocks[condBlock(mc, pc.cond)] {
+				t.guard = "the loop over the event table runs under a condition"
+				continue
+			}
+			if cb := condBlock(mc, pc.cond); cb == l.header {
+				continue
+			}
+			okc := false
+			for _, b := range mc.Blocks {
+				if iff, isIf := b.Instrs[len(b.Instrs)-1].(*ssa.If); isIf && iff.Cond == pc.cond {
+					if e := ownEmpty(iff); e >= 0 && (e == 1) == pc.side {
+						okc = true
+					}
+				}
+			}
+			if !okc {
+				t.guard = "a condition other than `its own text is not empty` decides whether the event is written"
+			}
+		}
+		// no way from the start of a round to the next round (or out of the loop) past the write, other than `text empty`
+		if t.guard == "" {
+			seen := map[*ssa.BasicBlock]bool{dyn.Block(): true}
+			var walk func(b *ssa.BasicBlock) bool
+			walk = func(b *ssa.BasicBlock) bool {
+				if b == l.header || !l.blocks[b] {
+					return true
+				}
+				if seen[b] {
+					return false
+				}
+				seen[b] = true
+				skip := -1
+				if iff, ok := b.Instrs[len(b.Instrs)-1].(*ssa.If); ok {
+					skip = ownEmpty(iff)
+				}
+				for i, s := range b.Succs {
+					if i != skip && walk(s) {
+						return true
+					}
+				}
+				return false
+			}
+			for _, s := range l.header.Succs {
+				if l.blocks[s] && s != l.header && walk(s) {
+					t.guard = "there is a way to the next row of the table that passes the event by although its text is not empty"
+				}
+			}
+			// ... and every exit of the loop is the loop's own test
+			for b := range l.blocks {
+				if b == l.header {
+					continue
+				}
+				for _, s := range b.Succs {
+					if !l.blocks[s] {
+						t.guard = "the loop over the event table is left before its last row"
+					}
+				}
+			}
+		}
+		out = t
+	})
+	return out
+}
+
+// condBlock: the block whose branch tests cond.
+func condBlock(fn *ssa.Function, cond ssa.Value) *ssa.BasicBlock {
+	for _, b := range fn.Blocks {
+		if iff, ok := b.Instrs[len(b.Instrs)-1].(*ssa.If); ok && iff.Cond == cond {
+			return b
+		}
+	}
+	return nil
+}
+
+// reviewedWriterImpls: the types that may stand behind the midix.Writer the play loop drives.
+var reviewedWriterImpls = map[string]string{
+	"midix.MIDIWriter": "the SMF writer itself (its methods are decided by NOTE / PENDING / OPMAP / TRACKADD)",
+}
+
+// checkSoleWriterImpl: what the play loop asks of a midix.Writer is judged on midix.MIDIWriter's methods; any other
+// type of the repo that implements the interface (a wrapper that logs, filters or forwards) stands between the two and
+// is not judged by those rules, so there is none outside the reviewed table.
+func (c *Ctx) checkSoleWriterImpl() {
+	mp := c.pkg("midix")
+	if mp == nil {
+		return
+	}
+	tn, _ := mp.Types.Scope().Lookup("Writer").(*types.TypeName)
+	if tn == nil {
+		return
+	}
+	iface, ok := tn.Type().Underlying().(*types.Interface)
+	if !ok {
+		return
+	}
+	c.site(1)
+	var others []string
+	for _, p := range c.Pkgs {
+		for _, n := range p.Types.Scope().Names() {
+			t, ok := p.Types.Scope().Lookup(n).(*types.TypeName)
+			if !ok || t.IsAlias() {
+				continue
+			}
+			if _, isIface := t.Type().Underlying().(*types.Interface); isIface {
+				continue
+			}
+			if types.Implements(t.Type(), iface) || types.Implements(types.NewPointer(t.Type()), iface) {
+				name := typeName(t.Type())
+				if _, reviewed := reviewedWriterImpls[name]; !reviewed {
+					others = append(others, name+" ("+c.pos(t.Pos())+")")
+				}
+			}
+		}
+	}
+	sort.Strings(others)
+	c.check(len(others) == 0, "midix.Writer|implementations", c.pos(tn.Pos()), "midix.Writer", "midix.MIDIWriter is the only type of the repo behind the interface the play loop drives", fmt.Sprintf("%s also implement(s) midix.Writer: a wrapper between the play loop and the SMF writer can drop, repeat or change what is asked for (e.g. a logging wrapper whose Rest does not forward), and the rules on MIDIWriter's methods do not see it", strings.Join(others, ", ")))
+}
+
+// errEdgeCut: for a branch on `err != nil` / `err == nil` the index of the failure edge (the legitimate early way out), else -1.
+func errEdgeCut(iff *ssa.If) int {
+	cmp, ok := iff.Cond.(*ssa.BinOp)
+	if !ok || (cmp.Op != token.NEQ && cmp.Op != token.EQL) {
+		return -1
+	}
+	if !(isNilConst(cmp.X) || isNilConst(cmp.Y)) || !(isErrorType(cmp.X.Type()) || isErrorType(cmp.Y.Type())) {
+		return -1
+	}
+	if cmp.Op == token.NEQ {
+		return 0
+	}
+	return 1
+}
+
+// innermostLoopHeader: the header of the innermost natural loop that contains b (nil when b is in no loop).
+func innermostLoopHeader(b *ssa.BasicBlock) *ssa.BasicBlock {
+	var best *ssa.BasicBlock
+	bestN := 0
+	for _, h := range b.Parent().Blocks {
+		if bl := naturalLoop(h); bl != nil && bl[b] {
+			if best == nil || len(bl) < bestN {
+				best, bestN = h, len(bl)
+			}
+		}
+	}
+	return best
 }
